@@ -576,6 +576,14 @@ pub fn c09_case(o: &mut Out, program: &[u8], flags: u32) {
             }
         },
     };
+    // the listings themselves, as text (or the SHA-256 of the text when long), for the Lean model of the listing loop
+    let wcl = match get_coinspends_with_conditions_for_trusted_block(&TEST_CONSTANTS, &Program::from(program.to_vec()), refs.iter(), f) {
+        Err(_) => "ERR".to_string(),
+        Ok(v) => {
+            let txt = v.iter().map(|(_, conds)| conds.iter().map(|(op, args)| format!("{}:{}", op, args.iter().map(|a| format!("x{}", hex::encode(a))).collect::<String>())).collect::<Vec<_>>().join(",")).collect::<Vec<_>>().join("|");
+            if txt.len() <= 2000 { txt } else { let mut h = chia_sha2::Sha256::new(); h.update(txt.as_bytes()); format!("sha:{}", hex::encode(h.finalize())) }
+        }
+    };
     let lookup = {
         let mut a = make_allocator(f);
         let mut ok = true;
@@ -598,7 +606,7 @@ pub fn c09_case(o: &mut Out, program: &[u8], flags: u32) {
             while let Some((sp, rest)) = next(&a, it) { it = rest;
                 if let Some([_, pz, _, sol, _]) = extract5(&a, sp) { for n in [pz, sol] { if node_to_bytes_limit(&a, n, 2_000_000).is_err() { over = true; } } } }
             if over { line.push_str(" @reveal-over-2MB"); } } } }
-    o.case(&line, &format!("{} || rebuild={} lookup={} withconds={} || vrem=[{}] vadd=[{}] || scanner=agrees", ar, rebuild, lookup, withconds, v_rem.join(","), v_add.join(",")));
+    o.case(&line, &format!("{} || rebuild={} lookup={} withconds={} || vrem=[{}] vadd=[{}] || scanner=agrees || wcl={}", ar, rebuild, lookup, withconds, v_rem.join(","), v_add.join(","), wcl));
 }
 
 
